@@ -737,7 +737,7 @@ namespace
         };
         std::vector<std::vector<Piece>> dyn;
         unsigned n_created = 0, n_exact = 0, n_overflow = 0, n_clone_mut = 0, n_multi = 0;
-        unsigned n_dyn = 0, n_dyn_refused = 0, n_dyn_nonlast = 0, n_mutate_live = 0, n_moved_objects = 0;
+        unsigned n_dyn = 0, n_dyn_refused = 0, n_dyn_nonlast = 0, n_mutate_live = 0, n_moved_objects = 0, n_assign_nonempty = 0;
         int      dtors = 0;
         bool     allow_known = false;
 
@@ -977,8 +977,24 @@ namespace
                 }
                 else if (o.b % 3 == 1)
                 {
-                    reset(to);
-                    *slots[to] = std::move(sp);
+                    if ((o.b / 3) % 2 && *slots[to] && sp)
+                    {
+                        // onto a non-empty target (possibly on the other allocator): the target's old
+                        // object is destroyed once and its block goes back to the allocator it came
+                        // from (the slab validates the owner of every release)
+                        int d0 = dtors;
+                        dyn[to].clear();
+                        *slots[to] = std::move(sp);
+                        if (dtors != d0 + 1)
+                            fail("destroy-count", "move assignment onto a non-empty joint_ptr destroyed the old object "
+                                                      + std::to_string(dtors - d0) + " times");
+                        ++n_assign_nonempty;
+                    }
+                    else
+                    {
+                        reset(to);
+                        *slots[to] = std::move(sp);
+                    }
                     std::swap(seeds[to], seeds[slot]);
                     std::swap(dyn[to], dyn[slot]);
                 }
@@ -1220,6 +1236,8 @@ namespace
                 ci.classes.insert("container-op-with-live-pieces");
             if (n_moved_objects)
                 ci.classes.insert("object-moved-with-allocator");
+            if (n_assign_nonempty)
+                ci.classes.insert("move-assign-onto-non-empty");
             if (n_exact)
                 ci.classes.insert("exact-fit");
             if (n_overflow)
